@@ -438,4 +438,20 @@ def flipped : Handle → Bool
   | .slice _ => false
   | .reader c => c.eof
 
+/-- `borrow_mut` and `Input::from` yield a slice: a slice input, or a reader
+whose source has reported its end. -/
+def sliceMode : Handle → Bool
+  | .slice _ => true
+  | .reader c => c.eof
+
+/-- The input of an explicit run that is given exactly `seen`. -/
+def srcOf : Seen → Src
+  | .slice bs => .slice bs
+  | .reader bs _ => .reader (Source.new bs [] false none)
+
+/-- The source of a reader input has no fault offset. -/
+def Src.noFault : Src → Prop
+  | .slice _ => True
+  | .reader s => s.failAt = none
+
 end Xt.Translate
